@@ -4,6 +4,7 @@ import (
 	"encoding/json"
 	"fmt"
 	"os"
+	"runtime"
 	"testing"
 	"time"
 
@@ -15,6 +16,20 @@ import (
 )
 
 func id() string { return os.Getenv("VERIF_ID") }
+
+// singleP makes crashes attributable: with one P and a yield after every case, the lexer
+// goroutine of a case runs to its end (or to its death) before the next case is published.
+// The -race shards keep the default GOMAXPROCS so that real two-goroutine schedules are sampled too.
+func singleP() {
+	if os.Getenv("VERIF_MULTIP") == "" {
+		runtime.GOMAXPROCS(1)
+	}
+}
+
+func settle() {
+	runtime.Gosched()
+	runtime.Gosched()
+}
 
 const enumChunk = 250000
 
@@ -125,6 +140,7 @@ func TestEnum(t *testing.T) {
 	lo, hi := ev.RangeFromEnv()
 	s.Watchdog(10*time.Second, 6<<30)
 	defer s.Done()
+	singleP()
 	rep := &reporter{s: s}
 	buf := make([]byte, 0, 64)
 	step := (hi - lo) / 3
@@ -140,6 +156,7 @@ func TestEnum(t *testing.T) {
 		if f := checkInput(id(), s, x); f != nil {
 			rep.fail(f, mkInput(x))
 		}
+		settle()
 		if (idx-lo)%step == (lo/enumChunk*7919+13)%step {
 			s.Sample(mkInput(x).Text)
 		}
@@ -277,6 +294,7 @@ func TestReplay(t *testing.T) {
 			t.Fatal(err)
 		}
 		f = checkInput(v.Property, nil, c.input())
+		time.Sleep(100 * time.Millisecond)
 	case "input-inflight":
 		var c struct {
 			Payload string `json:"payload_b64"`
@@ -285,6 +303,8 @@ func TestReplay(t *testing.T) {
 			t.Fatal(err)
 		}
 		f = checkInput(v.Property, nil, InputCase{B64: c.Payload}.input())
+		// the lexer goroutine may outlive the parse and die afterwards: give it time to
+		time.Sleep(300 * time.Millisecond)
 	case "prog":
 		var c ProgCase
 		if err := json.Unmarshal(v.Case, &c); err != nil {
